@@ -568,7 +568,7 @@ pub fn alphabet() -> Vec<Tok> {
     a.push(vec![alit(b"\x1b[?7l")]);
     a.push(vec![alit(b"\x1b[?7h")]);
     a.push(vec![alit(b"\x1b[=r")]);
-    a.push(acsi2(Sym::Lit(0), Sym::HHalf, b"=m"));
+    a.push(vec![alit(b"\x1b[=0;"), Piece::Num(Sym::HHalf), alit(b"m")]);
     a.push(vec![alit(b"\x1b[1;"), Piece::Num(Sym::HHalf), alit(b";2;"), Piece::Num(Sym::WHalf), alit(b"r")]);
     // save / restore / reset
     a.push(vec![alit(b"\x1b[s")]);
@@ -591,10 +591,10 @@ pub fn alphabet() -> Vec<Tok> {
     a.push(vec![alit(b"\x1b[4h")]);
     // single-edge margin updates with parameter 0 / 1 / beyond the screen, whole-region setters with 0
     for k in 0..4u32 {
-        a.push(acsi2(Sym::Lit(k), Sym::Lit(0), b"=m"));
+        a.push(vec![alit(format!("\x1b[={k};0m").as_bytes())]);
     }
-    a.push(acsi2(Sym::Lit(1), Sym::HPlus1, b"=m"));
-    a.push(acsi2(Sym::Lit(3), Sym::WPlus1, b"=m"));
+    a.push(vec![alit(b"\x1b[=1;"), Piece::Num(Sym::HPlus1), alit(b"m")]);
+    a.push(vec![alit(b"\x1b[=3;"), Piece::Num(Sym::WPlus1), alit(b"m")]);
     a.push(acsi2(Sym::Lit(0), Sym::Lit(0), b"r"));
     a.push(acsi2(Sym::Lit(0), Sym::Lit(0), b"s"));
     // key emulation
